@@ -337,6 +337,15 @@ func TestCheck(t *testing.T) {
 	if r.Replay != nil {
 		var c Case
 		r.DecodeReplay(&c)
+		if strings.HasPrefix(c.UDP, "real-upstream:") {
+			k, d := executeRealUpstream(c)
+			if k == "inconclusive" || k == "setup" {
+				r.Inconclusive(c.String() + ": " + d)
+				return
+			}
+			record(c, k, d)
+			return
+		}
 		if c.UDP != "" {
 			k, d := executeUDP(c)
 			record(c, k, d)
@@ -369,6 +378,21 @@ func TestCheck(t *testing.T) {
 			k, d := executeUDP(c)
 			if k == "inconclusive" {
 				r.Inconclusive(c.String() + " " + c.UDP + ": " + d)
+				r.Eval(1)
+			} else {
+				record(c, k, d)
+			}
+		}
+		idx++
+	}
+	for _, c := range realUpstreamCases(r.Thorough()) {
+		if r.Mine(idx) {
+			k, d := executeRealUpstream(c)
+			for try := 0; try < 3 && k == "inconclusive" && strings.Contains(d, "in use"); try++ {
+				k, d = executeRealUpstream(c)
+			}
+			if k == "inconclusive" || k == "setup" {
+				r.Inconclusive(c.String() + ": " + d)
 				r.Eval(1)
 			} else {
 				record(c, k, d)
